@@ -17,6 +17,7 @@
      implementation; own_shares_ie replayed exactly on every set, a subset evaluated by coqc. *)
 From Coq Require Import List Bool ZArith QArith Permutation Lia.
 From Similari Require Import Base.Num Model.Geom Model.OwnArea Proofs.OwnAreaProofs.
+From SimilariGen Require Import Scalar ScalarBox ScalarOwnArea.
 Import ListNotations.
 Open Scope Q_scope.
 
@@ -57,6 +58,21 @@ Proof. exact own_shares_grid_length. Qed.
 Theorem share_normalise_in_unit_interval :
   forall own area : Q, 0 <= own -> 0 <= area -> 0 <= share_normalise Qops own area <= 1.
 Proof. exact share_normalise_range. Qed.
+
+(* the tie to the Rust source (gen/ScalarOwnArea.v, regenerated on every run): the normalisation the laws above are
+   stated on is the translated  own_share_clamp (own_share_raw b area)  - equal by computation, so a changed formula
+   or comparison in exclusively_owned_areas_normalized_shares breaks this Qed - and own_shares_ie calls it *)
+Theorem share_normalise_is_translation :
+  forall (u : Universal2DBox Qops) (own : Q),
+    own_share_clamp Qops (own_share_raw Qops u own) = share_normalise Qops own (ubox_area Qops u).
+Proof. exact share_normalise_is_translation_lemma. Qed.
+
+Theorem own_shares_ie_normalises_by_translation :
+  forall boxes : list qbox,
+    own_shares_ie Qops boxes =
+    map (fun ib => share_normalise Qops (own_area_ie Qops boxes (fst ib) (snd ib)) (ubox_area Qops (to_ubox Qops (snd ib))))
+        (combine (seq 0 (length boxes)) boxes).
+Proof. exact own_shares_ie_uses_translation. Qed.
 
 (* Non-vacuity: the unit test of bbox_own_areas.rs (three 10 x 10 boxes on a diagonal) under both specifications *)
 Example c15_nonvacuous :
